@@ -1,9 +1,67 @@
 package colsim
 
-// knownAvoid returns the generator avoidance switches for a run: triggers of known
-// findings that belong to other properties are always avoided; the checked property's own
-// are avoided in 80% of the runs and allowed in 20% (which re-confirms the finding).
+import (
+	"os"
+	"strings"
+)
+
+// ownTriggers maps a property to the known-finding triggers its own check explores: they
+// are avoided in 80% of that property's runs and allowed in 20% (which re-confirms the
+// finding); every other property's check always steers around them.
+var ownTriggers = map[string][]string{
+	"C01": {"len-merge-put"},
+	"C02": {"fail-in-commit", "rollback-insert", "phantom-reserved"},
+	"C04": {"union-after-clear", "agg-missing-value"},
+	"C08": {"snapshot-reserved"},
+	"C11": {"put-delete", "merge-absent"},
+	"C12": {"dup-key-in-txn", "concurrent-key-insert"},
+	"C19": {"double-delete"},
+}
+
+// knownAvoid returns the generator/executor avoidance switches for a run.
 func knownAvoid(prop string, seed uint64, run int) avoid {
-	return avoid{putThenDelete: true, failInCommit: true, mergeAfterReuse: true, lenMergeThenPut: true, dupKeyInTxn: true,
-		enumBeyond0: true, lateColSparse: true, aggStale: true, rollbackInsert: true, sortDupKeys: true, rekey: false, unionAfterClear: true, doubleDelete: true, phantomReserved: true, snapshotReserved: true}
+	a := avoid{putThenDelete: true, failInCommit: true, mergeAfterReuse: true, lenMergeThenPut: true, dupKeyInTxn: true,
+		aggStale: true, rollbackInsert: true, unionAfterClear: true, doubleDelete: true, phantomReserved: true,
+		snapshotReserved: true, concurrentKeyInsert: true}
+	r := NewRng(seed, uint64(run), 1234)
+	allow := func(name string) {
+		switch name {
+		case "put-delete":
+			a.putThenDelete = false
+		case "fail-in-commit":
+			a.failInCommit = false
+		case "merge-absent":
+			a.mergeAfterReuse = false
+		case "len-merge-put":
+			a.lenMergeThenPut = false
+		case "dup-key-in-txn":
+			a.dupKeyInTxn = false
+		case "agg-missing-value":
+			a.aggStale = false
+		case "rollback-insert":
+			a.rollbackInsert = false
+		case "union-after-clear":
+			a.unionAfterClear = false
+		case "double-delete":
+			a.doubleDelete = false
+		case "phantom-reserved":
+			a.phantomReserved = false
+		case "snapshot-reserved":
+			a.snapshotReserved = false
+		case "concurrent-key-insert":
+			a.concurrentKeyInsert = false
+		}
+	}
+	for _, t := range ownTriggers[prop] {
+		if r.Chance(0.2) {
+			allow(t)
+		}
+	}
+	// exploration aid (never set by the registered checks): force-allow triggers
+	if env := os.Getenv("COLSIM_ALLOW"); env != "" {
+		for _, t := range strings.Split(env, ",") {
+			allow(t)
+		}
+	}
+	return a
 }
